@@ -32,6 +32,7 @@ Proof.
     apply orb_true_iff in H. destruct H as [H|H].
     + apply negb_true_iff, N.eqb_neq in H. contradiction.
     + now apply entry_eqb_full_eq.
+  - discriminate.
 Qed.
 
 Theorem wfb_wf ops : wfb ops = true -> wf ops.
